@@ -44,4 +44,66 @@ theorem fancyIndex_getElem? {α : Type} (d : α) (o : List Nat) (xs : List α) (
     (hm : o[i]? = some m) (hlt : m < xs.length) : (fancyIndex d o xs)[i]? = xs[m]? := by
   simp [fancyIndex, List.getElem?_map, hm, List.getD_eq_getElem?_getD, List.getElem?_eq_getElem hlt]
 
+/-! ### `argminFirstEF`, `fit3Ext` -/
+
+theorem argminFirstEFAux_spec (xs : List (EF K)) (i bi : Nat) (bv : EF K) :
+    argminFirstEFAux xs i bi bv = (bi, bv) ∨
+    ∃ k, k < xs.length ∧ (argminFirstEFAux xs i bi bv).1 = i + k ∧
+      xs[k]? = some (argminFirstEFAux xs i bi bv).2 := by
+  induction xs generalizing i bi bv with
+  | nil => left; rfl
+  | cons x xs ih =>
+    by_cases hx : EF.lt x bv = true
+    · simp only [argminFirstEFAux, hx, if_true]
+      rcases ih (i + 1) i x with h | ⟨k, hk, h1, h2⟩
+      · right; exact ⟨0, by simp, by rw [h]; simp, by rw [h]; simp⟩
+      · right; exact ⟨k + 1, by simp; omega, by rw [h1]; omega, by simpa using h2⟩
+    · simp only [argminFirstEFAux, hx]
+      rcases ih (i + 1) bi bv with h | ⟨k, hk, h1, h2⟩
+      · left; simpa using h
+      · right; exact ⟨k + 1, by simp; omega, by simp only [Bool.false_eq_true, if_false]; rw [h1]; omega,
+          by simpa using h2⟩
+
+/-- on a non-empty list `np.argmin` returns an existing position and the value there -/
+theorem argminFirstEF_spec (l : List (EF K)) (hne : l ≠ []) :
+    (argminFirstEF l).1 < l.length ∧ l[(argminFirstEF l).1]? = some (argminFirstEF l).2 := by
+  cases l with
+  | nil => exact absurd rfl hne
+  | cons x xs =>
+    simp only [argminFirstEF]
+    rcases argminFirstEFAux_spec xs 1 0 x with h | ⟨k, hk, h1, h2⟩
+    · rw [h]; simp
+    · rw [h1]
+      refine ⟨by simp; omega, ?_⟩
+      rw [show 1 + k = k + 1 by omega]
+      simpa using h2
+
+theorem maskChi_length (per : List (K × K)) (ext : List Bool) : (maskChi per ext).length = per.length := by
+  simp [maskChi]
+
+theorem fit3PerDist_length (big : K) (ln1m : K → K) (lo hi : K) (pss : List (List (Pt K))) :
+    (fit3PerDist big ln1m lo hi pss).length = pss.length := by
+  simp [fit3PerDist]
+
+/-- without NaN and without mask the EF argmin is the plain one -/
+theorem argminFirstEFAux_fin (xs : List K) (i bi : Nat) (bv : K) :
+    argminFirstEFAux (xs.map EF.fin) i bi (EF.fin bv)
+      = ((argminFirstAux xs i bi bv).1, EF.fin (argminFirstAux xs i bi bv).2) := by
+  induction xs generalizing i bi bv with
+  | nil => rfl
+  | cons x xs ih =>
+    by_cases hx : x < bv
+    · simp only [List.map_cons, argminFirstEFAux, argminFirstAux, EF.lt, hx, decide_true, if_true]
+      exact ih (i + 1) i x
+    · simp only [List.map_cons, argminFirstEFAux, argminFirstAux, EF.lt, hx, decide_false,
+        Bool.false_eq_true, if_false]
+      exact ih (i + 1) bi bv
+
+theorem maskChi_nil (per : List (K × K)) : maskChi per [] = (per.map (·.2)).map EF.fin := by
+  unfold maskChi
+  apply List.ext_getElem
+  · simp
+  · intro k h1 h2
+    simp
+
 end SF
